@@ -109,7 +109,7 @@ LEAK_ALL = leak("LK", (), 54, all_fns=True)
 LEAK_SCOPED = leak("R3", ("ACQ-SCOPED",), 26)
 
 prop("C01",
-     [cg.rule_L1, st.rule_L2, st.rule_L4, st.rule_E1, sig.rule_O1, sig.rule_O3, st.rule_N5, ts.rule_SD, ts2.rule_K1, cg.rule_K2, ts2.rule_R5, ts2.rule_R3key, ts2.rule_R1,
+     [cg.rule_L1, st.rule_L2, st.rule_L4, st.rule_E1, sig.rule_O1, sig.rule_O3, st.rule_N5, ts.rule_SD, ts2.rule_K1, cg.rule_K2, ts2.rule_R5, ts2.rule_R3key, ts2.rule_R1, ts2.rule_R7,
       A("rule_Y1"), A("rule_Y2")],
      "Premises of the Havender/Coffman argument, each a necessary condition visible in the code: L1 every safe function that can "
      "reach a blocking raw acquisition takes the key by value (call graph); L2 sorting collections cache get_ptrs(data) sorted "
@@ -131,14 +131,15 @@ prop("C02",
      "contract plus these rules, by argument not by check).")
 
 prop("C03",
-     [ts2.rule_R1, sig.rule_R2, LEAK_SCOPED, ts2.rule_R3key, ts2.rule_R4, ts2.rule_R5, ts.rule_M4, A("rule_E5"), A("rule_Y3"), st.rule_M5, ts2.rule_R6, st.rule_X1],
+     [ts2.rule_R1, sig.rule_R2, LEAK_SCOPED, ts2.rule_R3key, ts2.rule_R4, ts2.rule_R5, ts.rule_M4, A("rule_E5"), A("rule_Y3"), st.rule_M5, ts2.rule_R6, st.rule_X1, ts2.rule_R7, sig.rule_S3],
      "R1 unlock-style APIs release every lock of the consumed guard before returning its key; R2 key field declared after hold "
      "fields in every guard (drop order); R3 scoped calls hold nothing at return and at every unwinding exit; R3k the key outlives "
      "the closure; R4 a failed try returns Err(key) holding nothing and without running user code; R5 guard-returning APIs move the "
      "key exactly once into the result; E5 collection-level acquisitions hold every member exactly once on success and none on "
      "failure; Y3 the retrying collection never starts a blocking acquisition while it still holds a member; M5 a leaf lock's "
      "acquiring op never panics after its raw acquisition returned (the key would come back while the raw lock stays locked); X1 a "
-     "leaf try reports exactly what the raw try did (a `false` while the raw lock was taken hands the key back with the lock held).",
+     "leaf try reports exactly what the raw try did (a `false` while the raw lock was taken hands the key back with the lock held); "
+     "R7/S3 only functions that take the key by value may return holding a lock; no API takes a reference to the key instead.",
      "the single-thread history enumeration itself (the rules are per-API invariants that make every history safe).")
 
 prop("C04",
@@ -166,7 +167,7 @@ prop("C06",
      "agreement with a reference model over API histories (the rules are the invariants such a model would check).")
 
 prop("C14",
-     [sig.rule_K3, sig.rule_S1, sig.rule_S2, sig.rule_S3, sig.rule_S5, sig.rule_A4, ts2.rule_R6, W("C14")],
+     [sig.rule_K3, sig.rule_S1, sig.rule_S2, sig.rule_S3, sig.rule_S5, sig.rule_A4, ts2.rule_R6, ts2.rule_R7, W("C14")],
      "Universal signature rules over every function/impl of the crate (impl table of the key, private fields of key carriers, "
      "key conservation at signature level, no reference-to-key APIs, no replaceable guard payload behind &mut, unsafe markers) "
      "plus a corpus of offending client programs that the real compiler must reject, each with a compiling twin.",
@@ -209,11 +210,12 @@ prop("C09",
      "'nevertheless finishes': liveness under contention (the authors document possible livelock).")
 
 prop("C10",
-     [st2.rule_F1, st2.rule_F2, st2.rule_F3, st2.rule_F4, st2.rule_F5, st2.rule_F6, st2.rule_V3, st.rule_Q6],
+     [st2.rule_F1, st2.rule_F2, st2.rule_F3, st2.rule_F4, st2.rule_F5, st2.rule_F6, st2.rule_F7, st2.rule_V3, st.rule_Q6],
      "F1 PoisonRef poisons exactly when dropped during unwinding, with the flag of its own Poisonable; F2 Poisonable's scoped calls "
      "poison in the handler before releasing, never on the normal path; F3 Err(PoisonError(x)) exactly on the poisoned edge with the "
      "same payload x as Ok(x); F4 who may call PoisonFlag::poison; F5 RawLock::poison (kill) only in handlers whose try closure has "
-     "no user call; F6 exclusive scoped calls over generic lockables poison contained Poisonables (fails: known finding).",
+     "no user call; F6 exclusive scoped calls over generic lockables poison contained Poisonables (fails: known finding); F7 no reachable function "
+     "forgets a PoisonRef (its Drop is the only poisoning point of guard-based holds).",
      "the history model (re-poison after clear, cross-thread visibility beyond Relaxed atomics).")
 
 prop("C11",
